@@ -13,7 +13,7 @@ from harness.lib.core import JOBS, VERIF, source_sha
 from harness.props import c04lib as L
 
 LEVEL = 'proof'
-IMPORTS = 'C04.Cst C04.Lcs C04.Model C04.ModelOmega C04.ModelRv C04.Check'
+IMPORTS = 'C04.Cst C04.Lcs C04.Model C04.ModelOmega C04.ModelRv C04.ModelCreate C04.Check'
 
 TAGS = {
     1: 'regenerated $THETA record trees differ from the model',
@@ -32,6 +32,7 @@ TAGS = {
     24: 'the regenerated diagonal record tree does not mean what pharmpy reads from its text',
     25: 'lcs.diff on distributions (update_random_variables) differs from the model',
     26: 'the calls made by update_random_variable_records (update / remove / create_omega_single / create_omega_block, in order) differ from the planned actions of the model',
+    27: 'the record create_omega_single / create_omega_block returned differs from the model',
     212: 'guard_plan (the guard of update_thetas_realises) disagrees with the conjuncts evaluated one by one',
     31: 're-reading the regenerated code raises ($OMEGA/$SIGMA edit)',
     32: 're-read OMEGA/SIGMA values or FIX differ from the in-memory model',
@@ -47,12 +48,12 @@ TAGS = {
     47: 'a structural random-effect edit crashes with an internal error',
     48: 're-read FIX flags inside a joint distribution differ from the in-memory model (structural edit)',
 }
-CORR = (1, 2, 4, 5, 6, 21, 22, 23, 24, 25, 26, 212)
+CORR = (1, 2, 4, 5, 6, 21, 22, 23, 24, 25, 26, 27, 212)
 ORACLE = (11, 12, 13, 14, 15, 31, 32, 33, 34, 35, 41, 42, 43, 44, 45, 46, 47, 48)
 GUARD_NAMES = {201: 'g_plain_layout', 202: 'g_xn_uniform', 203: 'g_xn_nofix', 205: 'g_repr',
                206: 'g_count', 207: 'g_rm_single', 208: 'g_removed_unnamed', 209: 'g_names', 210: 'g_bounds_canonical', 211: 'g_order',
                221: 'g_plain_item', 222: 'c_oxn_uniform', 223: 'g_sd_exact', 224: 'g_orepr', 226: 'g_ocount', 227: 'g_block_scale_exact', 241: 'c_default_names_in_place', 242: 'c_block_fix_uniform',
-               244: 'c_no_item_leaves_a_multi_item_record', 245: 'c_no_scaled_record', 246: 'c_no_item_leaves_an_xn_record', 251: 'c_records_hold_one_distribution',
+               244: 'c_no_item_leaves_a_multi_item_record', 245: 'c_no_scaled_record', 246: 'c_no_item_leaves_an_xn_record', 251: 'c_records_hold_one_distribution', 252: 'c_no_fixed_iov_created',
                299: 'plan_error'}
 # guard conjunct / class predicate -> finding id (conjuncts without an entry describe unrepresentable inputs,
 # not defects).  After the batch-2 fixes (b54b188, f6a49ae, 5bd60d8) the ids C04-OMEGA-XN-SPLIT,
@@ -64,13 +65,13 @@ FINDING_OF = {202: 'C04-THETA-XN-EDIT', 203: 'C04-THETA-XN-FIX',
               201: 'C04-THETA-EXOTIC-LAYOUT', 207: 'C04-THETA-REMOVE-XN', 208: 'C04-THETA-REMOVE-COMMENT',
               209: 'C04-THETA-NAMES-SHIFT', 210: 'C04-THETA-BOUND-RESPELL', 211: 'C04-THETA-INSERT-ORDER', 222: 'C04-OMEGA-XN-SPLIT-NAMES', 223: 'C04-OMEGA-SCALE-INEXACT', 227: 'C04-OMEGA-SCALE-INEXACT',
               241: 'C04-OMEGA-NAMES-SHIFT', 242: 'C04-OMEGA-BLOCK-PARTIAL-FIX', 244: 'C04-OMEGA-DIAG-ITEM-ORDER',
-              245: 'C04-OMEGA-SCALE-INEXACT', 246: 'C04-OMEGA-XN-REMOVE'}
+              245: 'C04-OMEGA-SCALE-INEXACT', 246: 'C04-OMEGA-XN-REMOVE', 252: 'C04-OMEGA-IOV-SAME-FIX'}
 # which false guard conjuncts can explain which oracle tag
 EXPLAINS = {11: (201, 202, 203, 205, 207, 208), 12: (201, 202, 203, 205, 207, 211), 14: (201, 202, 207, 206),
             15: (208, 209, 207, 202, 211), 13: (210, 201, 202, 207),
             31: (221, 224), 32: (221, 223, 224, 227), 33: (221, 222, 223, 227), 34: (221, 226), 35: (221, 222),
             41: (246,), 42: (244, 246), 43: (244, 246), 44: (245, 244, 246), 45: (244, 246), 48: (242, 244, 246), 46: (241, 244, 246),
-            47: (246,)}
+            47: (246, 252)}
 
 
 # ------------------------------------------------------------------ worker side
